@@ -264,7 +264,7 @@ class Statement(object):
             branch_index = self.code_pkg.additional.int
             size_hint = 2 if self.instruction.is_short_branch else 4
             length = 0
-            if branch_index < this_index:
+            if branch_index <= this_index:
                 length = 1
                 for statement in statements[branch_index:this_index+1]:
                     length += statement.code_pkg.size
